@@ -211,6 +211,9 @@ def judge(ctx, run, drv_lines_out=None):
             continue
         op = prog[k]
         pcs[tid] = k + 1
+        if op[0] == "acq" and hold.get((tid, not bool(op[1])), 0) > 0 and out != "error":
+            probs.append(f"thread {tid} holds {'up' if op[1] else 'down'} and asked for {'down' if op[1] else 'up'} ({op[2]}): the request "
+                         f"must be refused with an error, it returned {out!r} (holder asking for the opposite state)")
         if op[0] == "acq" and out == "acquired":
             d = bool(op[1])
             others = [(t, dd) for (t, dd), c in hold.items() if c > 0 and dd != d]
@@ -352,7 +355,7 @@ def run(ctx):
                          "final_count": r["final"][0]} if nwait and len(ctx.samples) < 3 else None)
         for p in judge(ctx, r):
             free = r["final"][0] == 0
-            ctx.violation(("late:" if "beyond its deadline" in p else "holder:" if ("without holding" in p or "mutual exclusion" in p or "was rejected" in p) else "lostwake:" if free else "deadlock:") + json.dumps(r["progs"])[:50], p,
+            ctx.violation(("late:" if "beyond its deadline" in p else "holder:" if ("without holding" in p or "mutual exclusion" in p or "was rejected" in p or "opposite state" in p) else "lostwake:" if free else "deadlock:") + json.dumps(r["progs"])[:50], p,
                           {"kind": "schedule", "programs": r["progs"], "schedule": r["taken"], "problem": p,
                            "sched_log": r["sched_log"][-30:]})
     compare_with_model(ctx, runs)
